@@ -238,6 +238,17 @@ func checkWeightedModel(run *core.Run, m *openfgav1.AuthorizationModel, r *rand.
 	for k := 0; k < o.builds; k++ {
 		g, err := graph.NewWeightedAuthorizationModelGraphBuilder().Build(m)
 		observe(g, err, fmt.Sprintf("Build #%d", k))
+		if err == nil && g != nil && k == 0 {
+			// API sequence: AssignWeights is public; running it again on the accepted graph must leave an accepted
+			// graph that still satisfies everything (weights, wildcards, structure)
+			err2 := g.AssignWeights()
+			if err2 != nil {
+				viol("C06", "second-AssignWeights-rejects-an-accepted-graph", "nil", err2.Error()+"\n"+gen.PPModel(m))
+			} else {
+				observe(g, nil, "Build #0 followed by a second AssignWeights()")
+			}
+			run.Count("second_AssignWeights_calls", 1)
+		}
 	}
 	realOutcomes := map[string]int{}
 	for k, n := range outcomes {
@@ -557,6 +568,13 @@ func runWeighted(run *core.Run) {
 		if i%7 == 3 {
 			opt.MaxRel, opt.MaxObj = 7, 3
 		}
+		if i%23 == 2 {
+			// many user / public types: long weight maps and wildcard lists (> 16 entries when two routes meet)
+			opt.MaxTerm, opt.ManyRestrictions = 12, true
+			if opt.Wildcards < 4 {
+				opt.Wildcards = 4
+			}
+		}
 		if i%5 == 1 && opt.MaxTerm < 4 {
 			// several user types and public types: lists of three and more entries
 			opt.MaxTerm = 4
@@ -611,6 +629,48 @@ func runWeightedFamilies(run *core.Run, o wgOpts) {
 		sizes = []int{2, 3, 4, 5, 8, 12, 20, 30}
 	}
 	o.maxOrders = 40
+	// many public types reachable along overlapping routes (lists of 9, 12, 20 entries meeting each other)
+	for _, n := range []int{9, 12, 20} {
+		for variant := 0; variant < 3; variant++ {
+			var types []*openfgav1.TypeDefinition
+			var all, half []*openfgav1.RelationReference
+			for i := 0; i < n; i++ {
+				tn := fmt.Sprintf("t%02d", i)
+				types = append(types, &openfgav1.TypeDefinition{Type: tn})
+				all = append(all, gen.RefWild(tn))
+				if i%2 == 0 {
+					half = append(half, gen.RefWild(tn))
+				} else {
+					half = append(half, gen.RefType(tn))
+				}
+			}
+			td := &openfgav1.TypeDefinition{Type: "o", Relations: map[string]*openfgav1.Userset{"p": gen.This()},
+				Metadata: &openfgav1.Metadata{Relations: map[string]*openfgav1.RelationMetadata{"p": {DirectlyRelatedUserTypes: []*openfgav1.RelationReference{gen.RefType("o")}}}}}
+			set := func(rel string, us *openfgav1.Userset, refs []*openfgav1.RelationReference) {
+				td.Relations[rel] = us
+				td.Metadata.Relations[rel] = &openfgav1.RelationMetadata{DirectlyRelatedUserTypes: refs}
+			}
+			switch variant {
+			case 0: // two routes with the same long list
+				set("editor", gen.This(), all)
+				set("viewer", gen.Union(gen.This(), gen.Computed("editor")), all)
+				set("top", gen.Union(gen.Computed("viewer"), gen.Computed("editor"), gen.TTU("viewer", "p")), nil)
+			case 1: // overlapping halves, under intersection and exclusion
+				set("a", gen.This(), all)
+				set("b", gen.This(), half)
+				set("c", gen.Inter(gen.Computed("a"), gen.Computed("b")), nil)
+				set("d", gen.Diff(gen.Computed("a"), gen.Computed("c")), nil)
+				set("e", gen.Union(gen.Computed("c"), gen.Computed("d"), gen.This()), half)
+			case 2: // long lists on a tuple cycle
+				set("x", gen.Union(gen.This(), gen.TTU("y", "p")), all)
+				set("y", gen.Union(gen.This(), gen.TTU("x", "p"), gen.Computed("z")), half)
+				set("z", gen.This(), append(append([]*openfgav1.RelationReference{}, half...), gen.RefRel("o", "x")))
+			}
+			m := &openfgav1.AuthorizationModel{SchemaVersion: "1.1", TypeDefinitions: append(types, td)}
+			checkWeightedModel(run, m, run.Rng("fam-wild", n*10+variant), o)
+			run.Count("family_models", 1)
+		}
+	}
 	for _, n := range sizes {
 		for variant := 0; variant < 4; variant++ {
 			td := &openfgav1.TypeDefinition{Type: "o", Relations: map[string]*openfgav1.Userset{"p": gen.This()},
